@@ -6,14 +6,19 @@ one is addressed to.  Same domain as C01: every history, size, coordinate, rune 
 descriptions without the bottom-right insert-character trick (on those four entries the trick deliberately
 repaints the neighbour of the corner cell — the property's own exception — and is not covered here).
 
-Two variants of drawCell are modelled (`DrawCfg.guardLocked`, default `Tcell.currentGuardsLockedNeighbour`):
-* `guardLocked = false` — the pinned tree.  The four history theorems below (`hct : c.Plain`) are proved for it; the locked
-  clause of the property is *false* for it (`wide_left_of_locked_overpaints`, finding C13-wide-left-of-locked).
-* `guardLocked = true` — the tree repaired by fixes/C13-wide-left-of-locked.patch.  For it `locked_never_painted_partial`
-  is proved for every history (indeed from every state) and the witness is refuted (`wide_left_of_locked_kept_repaired`,
-  `unlock_repaints_wide_repaired`); the Layer-A invariant (`show_writes_only_dirty_partial`, `idle_show…`, C01's
-  `show_faithful_partial`) has NOT been carried over to this variant yet — what it has to say there is written down in
-  `Tcell.Props.C13.DisplaysRepairedCell`.
+Three variants of drawCell are modelled (`DrawCfg.guardLocked`, default `Tcell.currentGuardsLockedNeighbour`; `DrawCfg.walkGuard`,
+default `Tcell.currentWalkGuard`); `hct : c.Plain` = no corner trick, the guard flags ARBITRARY:
+* `guardLocked = false` — the pinned tree.  Frame theorem, idle Show, locked-never-addressed, unlock-repaints hold; the
+  locked clause of the property is *false* for it (`wide_left_of_locked_overpaints`, finding C13-wide-left-of-locked, fixed).
+* `guardLocked = true, walkGuard = false` — the tree AS IT IS (fix 0ca6187).  Frame theorem, locked-never-addressed,
+  unlock-repaints and `locked_never_painted_partial` (no payload, right halves of two-column glyphs included, occupies a
+  locked cell — stated on the terminal's `covered` log) hold for every history.  **Idle Show is FALSE** for it:
+  `idle_show_writes_tree_as_is` — drawCell narrows a wide rune left of a locked cell only when it paints it, so the width
+  it returns to the draw loop depends on whether the cell was Dirty; when the locked cell itself holds a wide rune the next,
+  idle, Show walks differently and paints the cell right of the locked one, which on a real terminal destroys the locked
+  cell's glyph (finding C13-locked-wide-walk, reproduced by the oracle of engine `draw`).  `idle_show_writes_nothing_partial`
+  therefore carries the hypothesis `guardLocked = false ∨ walkGuard = true`.
+* `guardLocked = true, walkGuard = true` — with the proposed fixes/C13-locked-wide-walk.patch: all theorems, idle Show included.
 -/
 import Tcell.Lemmas.World
 import Tcell.Lemmas.LockGuard
@@ -33,7 +38,7 @@ theorem show_writes_only_dirty_partial (hrw : RwOk c.rw) (hct : c.Plain) (w h : 
     let wd := (World.init w h).run c ops
     wd.trusted = true → (wd.sw.ttyw = wd.sw.s.w ∧ wd.sw.ttyh = wd.sw.s.h) →
     ∃ ws, (wd.step c .show).t.writes = ws ++ wd.t.writes ∧
-      ∀ p ∈ ws, wd.sw.s.cells.dirty p.1 p.2 = true ∧ visited c.rw wd.sw.s.cells p.1 p.2 = true :=
+      ∀ p ∈ ws, wd.sw.s.cells.dirty p.1 p.2 = true ∧ visitedG c wd.sw.s.cells p.1 p.2 = true :=
   fun ht hsz => show_writes hrw hct (reach_inv hrw hct w h ops hv) ht hsz
 
 /-- **Locked cells are never addressed.** No payload is sent to a cell that is locked when the Show begins. -/
@@ -54,9 +59,10 @@ theorem locked_never_addressed_partial (hrw : RwOk c.rw) (hct : c.Plain) (w h : 
   · exact absurd hd (by simp)
 
 /-- **An idle Show writes nothing.** A Show immediately following a Show (no content change, no resize, no
-corruption in between) sends no cell payload at all. -/
-theorem idle_show_writes_nothing_partial (hrw : RwOk c.rw) (hct : c.Plain) (w h : Int) (ops : List ScrOp)
-    (hv : ∀ op ∈ ops, op.Valid c) :
+corruption in between) sends no cell payload at all — for the pinned drawCell and for the repaired one with the walk fix
+(`hs`); for the tree as it is see `idle_show_writes_tree_as_is`. -/
+theorem idle_show_writes_nothing_partial (hrw : RwOk c.rw) (hct : c.Plain) (hs : c.guardLocked = false ∨ c.walkGuard = true)
+    (w h : Int) (ops : List ScrOp) (hv : ∀ op ∈ ops, op.Valid c) :
     let wd := (World.init w h).run c ops
     (wd.trusted = true ∨ ¬ (wd.sw.ttyw = wd.sw.s.w ∧ wd.sw.ttyh = wd.sw.s.h)) →
     ((wd.step c .show).step c .show).t.writes = (wd.step c .show).t.writes := by
@@ -72,7 +78,6 @@ theorem idle_show_writes_nothing_partial (hrw : RwOk c.rw) (hct : c.Plain) (w h 
       · exact absurd hsz h1
     · simp only [World.step, hsz, if_false]
   have hsz1 : (wd.step c .show).sw.ttyw = (wd.step c .show).sw.s.w ∧ (wd.step c .show).sw.ttyh = (wd.step c .show).sw.s.h := by
-    have hm := inv1.mism
     have hd := inv1.tdim
     have ht := (inv1.tr ht1)
     exact ⟨by rw [← hd.1, ht.tw], by rw [← hd.2, ht.th]⟩
@@ -83,14 +88,19 @@ theorem idle_show_writes_nothing_partial (hrw : RwOk c.rw) (hct : c.Plain) (w h 
   | cons p ws =>
     exfalso
     obtain ⟨hd, hvis⟩ := h2 p (List.mem_cons_self ..)
+    obtain ⟨sw, sh, sg, sl⟩ := disp.same
+    -- the walk does not depend on the Dirty flags, so it was the same walk in the first Show
+    rw [visitedG_static c hs _ _ sw sh sg sl] at hvis
     have hr : (wd.step c .show).sw.s.cells.inRange p.1 p.2 := by
       simp only [dirty] at hd; split at hd
       · assumption
       · exact absurd hd (by simp)
     have hl : ((wd.step c .show).sw.s.cells.cells p.1 p.2).lock = false := by
       have hd' := hd
-      simp only [dirty] at hd'; rw [if_pos hr] at hd'; exact isDirty_true_unlocked _ hd' 
-    have := (disp.cells p.1 p.2 hr hvis hl).1
+      simp only [dirty] at hd'; rw [if_pos hr] at hd'; exact isDirty_true_unlocked _ hd'
+    have hr0 : (wd.sw.s.resize (some (wd.sw.ttyw, wd.sw.ttyh))).cells.inRange p.1 p.2 := by
+      rw [inRange_iff] at hr ⊢; rw [← sw, ← sh]; exact hr
+    have := disp.cleaned p.1 p.2 hr0 hvis (by rw [← sl]; exact hl)
     rw [this] at hd; exact absurd hd (by simp)
 
 /-- **A cell is repainted by the first Show after it is unlocked** (and more generally after anything made it
@@ -98,7 +108,7 @@ dirty): this is C01's `show_faithful_partial` — after that Show the cell is cl
 theorem unlock_repaints_partial (hrw : RwOk c.rw) (hct : c.Plain) (w h : Int) (ops : List ScrOp)
     (hv : ∀ op ∈ ops, op.Valid c) (x y rw' rh : Int) :
     let wd := ((World.init w h).run c ops).step c (.lockRegion x y rw' rh false)
-    wd.trusted = true → Displays c (wd.step c .show) := by
+    wd.trusted = true → Displays c (wd.sw.s.resize (some (wd.sw.ttyw, wd.sw.ttyh))).cells (wd.step c .show) := by
   intro wd ht
   have hv' : ∀ op ∈ ops ++ [ScrOp.lockRegion x y rw' rh false], op.Valid c := by
     intro op ho; rcases List.mem_append.1 ho with ho | ho
@@ -129,18 +139,23 @@ theorem wide_left_of_locked_overpaints :
 /-- the demo configuration with the locked-neighbour guard compiled in -/
 def cfgRepaired : DrawCfg := { C01.cfgDemo with guardLocked := true }
 
-/-- **No payload of a Show covers a locked cell** (repaired variant; every history, size, coordinate, rune, style; every
-terminal description without the corner trick).  `drawLog` lists, for the draw pass of this Show, every cell payload
-together with the cell the loop addresses it to and the number of columns it occupies (drawCell's return value).
-Every payload is addressed to a cell that is not locked when the pass begins, and a payload wider than one column is
-written only if the next column is not locked either — so, glyphs being at most two columns wide (`RwOk.le2`), no
-column a payload occupies is a locked cell: neither the addressed one (`locked_never_addressed_partial`) nor the right
-half of a wide glyph.  (`s` is the screen after Show's own resize step: when the window size changed, Resize has
-re-created every cell unlocked, cell.go:196.)
-`_partial`: (1) corner-trick entries excluded; (2) the log is at the level of the draw loop's own addressing — that the
-terminal's cursor is where the loop believes (invariant `PassInv.kcur`) is proved for the pinned variant only and is
-otherwise checked on every run by the correspondence and by the oracle's lock snapshots. -/
-theorem locked_never_painted_partial (hct : c.cornerTrick = false) (hg : c.guardLocked = true) (w h : Int) (ops : List ScrOp) :
+/-- **No payload of a Show covers a locked cell** (repaired drawCell, `guardLocked = true`, walk fix or not; every history,
+size, coordinate, rune, style; every terminal description without the corner trick).  Stated on the abstract terminal:
+`ATerm.covered` logs, for every payload the terminal receives, the cell the cursor is on and — for a two-column glyph — the
+cell to its right.  During a Show on a trusted display of unchanged size every cell so covered is not locked when the Show
+begins: neither an addressed cell (`locked_never_addressed_partial`) nor the right half of a wide glyph.
+`_partial`: the four corner-trick entries are excluded (`hct`).  For the pinned drawCell the statement is false
+(`wide_left_of_locked_overpaints`). -/
+theorem locked_never_painted_partial (hrw : RwOk c.rw) (hct : c.Plain) (hg : c.guardLocked = true) (w h : Int)
+    (ops : List ScrOp) (hv : ∀ op ∈ ops, op.Valid c) :
+    let wd := (World.init w h).run c ops
+    wd.trusted = true → (wd.sw.ttyw = wd.sw.s.w ∧ wd.sw.ttyh = wd.sw.s.h) →
+    ∃ cs, (wd.step c .show).t.covered = cs ++ wd.t.covered ∧ ∀ p ∈ cs, wd.sw.s.cells.locked p.1 p.2 = false :=
+  fun ht hsz => show_covers hrw hct hg (reach_inv hrw hct w h ops hv) ht hsz
+
+/-- The same at the level of the draw loop's own log, from the state any history leads to (no trust, no size hypothesis):
+`drawLog` lists every cell payload of the draw pass with the cell the loop addresses it to and the columns it occupies. -/
+theorem locked_never_painted_log (hct : c.cornerTrick = false) (hg : c.guardLocked = true) (w h : Int) (ops : List ScrOp) :
     let wd := (World.init w h).run c ops
     let s := wd.sw.s.resize (some (wd.sw.ttyw, wd.sw.ttyh))
     ∀ e ∈ s.drawLog c, s.cells.locked e.1 e.2.1 = false ∧ (e.2.2 > 1 → s.cells.locked (e.1 + 1) e.2.1 = false) :=
@@ -172,10 +187,9 @@ theorem unlock_repaints_wide_repaired :
     ((World.init 3 1).run cfgRepaired (lockedOps ++ [.lockRegion 1 0 1 1 false, .show])).t.grid 1 0 = .cont := by
   decide +kernel
 
-/-- What C01's `Displays` has to say about a visited unlocked cell holding a wide rune on the repaired tree (not yet
-proved over histories; checked by the oracle of engine `draw`, tags `wide-left-of-locked-blank`): if the next column is
-not locked the cell shows the glyph two columns wide exactly as on the pinned tree; if the next column is locked it
-shows a blank of width 1 in the cell's style — or still the glyph, when it was painted before the neighbour was locked. -/
+/-- What C01's `Displays` says about a clean unlocked cell holding a wide rune on the repaired tree, in contributor R's
+form: the cell shows its content exactly as on the pinned tree, or — only if the next column is locked now — a blank of
+width 1 in the cell's style. -/
 def DisplaysRepairedCell (c : DrawCfg) (wd : World) (x y : Int) : Prop :=
   let cell := wd.sw.s.cells.cells x y
   ∃ st', (wd.t.grid x y = shownOf c wd.sw.s.w x cell.currMain cell.currComb st' ∨
@@ -183,5 +197,66 @@ def DisplaysRepairedCell (c : DrawCfg) (wd : World) (x y : Int) : Prop :=
 
 example : DisplaysRepairedCell cfgRepaired ((World.init 3 1).run cfgRepaired lockedOps) 0 0 :=
   ⟨{}, Or.inr ⟨by decide +kernel, by decide +kernel⟩⟩
+
+/-- **`DisplaysRepairedCell` holds after every Show / Sync / notified resize, for every clean unlocked cell** (in particular
+for every cell the draw loop visited): it is the `cells` clause of `Displays`, which C01's `show_faithful_partial`,
+`sync_faithful_partial`, `resize_faithful_partial` establish for every history. -/
+theorem displays_repaired_cell {pre : Buf} {wd : World} (disp : Displays c pre wd) (x y : Int)
+    (hr : wd.sw.s.cells.inRange x y) (hl : (wd.sw.s.cells.cells x y).lock = false) (hd : wd.sw.s.cells.dirty x y = false) :
+    DisplaysRepairedCell c wd x y := by
+  obtain ⟨st', nl, h1, _, _, h4, _⟩ := disp.cells x y hr hl hd
+  refine ⟨st', ?_⟩
+  cases nl with
+  | false => left; simpa using h1
+  | true =>
+    by_cases hw : obsWidth c.rw (wd.sw.s.cells.cells x y).currMain > 1
+    · right; exact ⟨(h4 rfl hw).2, by rw [h1, shownOfG_guard _ _ _ _ _ _ hw]⟩
+    · left; rw [h1]
+      simp only [shownOfG, shownOf, cellTextG_of_not _ _ _ _ _ _ true (fun h => hw h.2)]
+
+/-- corollary on histories: after a Show on a trusted display (or one that notices a size change) -/
+theorem show_faithful_repaired_cell_partial (hrw : RwOk c.rw) (hct : c.Plain) (w h : Int) (ops : List ScrOp)
+    (hv : ∀ op ∈ ops, op.Valid c) :
+    let wd := (World.init w h).run c ops
+    (wd.trusted = true ∨ ¬ (wd.sw.ttyw = wd.sw.s.w ∧ wd.sw.ttyh = wd.sw.s.h)) →
+    ∀ x y, (wd.step c .show).sw.s.cells.inRange x y → ((wd.step c .show).sw.s.cells.cells x y).lock = false →
+      (wd.step c .show).sw.s.cells.dirty x y = false → DisplaysRepairedCell c (wd.step c .show) x y :=
+  fun htr x y hr hl hd => displays_repaired_cell (C01.show_faithful_partial hrw hct w h ops hv htr) x y hr hl hd
+
+/-! ### the tree as it is: an idle Show is not idle when a wide rune sits left of a locked wide rune
+
+5×1 screen: a wide rune at (1,0) and 'a' at (3,0) are shown; (1,0) is locked; a wide rune is put at (0,0).  Show #2 paints (0,0)
+as a blank of width 1 (guard) and therefore steps to the locked (1,0), whose width 2 makes the loop skip (2,0) (marking it
+dirty).  Show #3 — nothing has changed — finds (0,0) clean, steps by its stored width 2 straight to (2,0) and paints it: a
+payload in an idle Show, landing on the right half of the glyph the locked cell displays. -/
+
+def walkOps : List ScrOp :=
+  [.setContent 1 0 0x4e16 [] {}, .setContent 3 0 0x61 [] {}, .show, .lockRegion 1 0 1 1 true,
+   .setContent 0 0 0x4e16 [] {}, .show]
+
+/-- the tree as it is (`guardLocked = true`, `walkGuard = false`): the idle Show writes cell (2,0), and the terminal cell of
+the locked position (1,0) — the left half of the glyph whose right half was overwritten — is no longer the glyph -/
+theorem idle_show_writes_tree_as_is :
+    let wd := (World.init 5 1).run C01.cfgGuard walkOps
+    (wd.step C01.cfgGuard .show).t.writes = (2, 0) :: wd.t.writes ∧
+    (wd.sw.s.cells.cells 1 0).lock = true ∧
+    wd.t.grid 1 0 = .shown [0xe4, 0xb8, 0x96] true {} ∧ (wd.step C01.cfgGuard .show).t.grid 1 0 = .garbage := by
+  decide +kernel
+
+/-- with fixes/C13-locked-wide-walk.patch (`walkGuard = true`) the same idle Show writes nothing and the glyph stays -/
+theorem idle_show_quiet_with_walk_fix :
+    let wd := (World.init 5 1).run C01.cfgWalk walkOps
+    (wd.step C01.cfgWalk .show).t.writes = wd.t.writes ∧
+    (wd.step C01.cfgWalk .show).t.grid 1 0 = .shown [0xe4, 0xb8, 0x96] true {} := by
+  decide +kernel
+
+example : ∀ op ∈ walkOps, op.Valid C01.cfgGuard := by simp [walkOps, ScrOp.Valid, attrInvalid]
+example : ((World.init 5 1).run C01.cfgGuard walkOps).trusted = true := by decide
+example : C01.cfgWalk.guardLocked = false ∨ C01.cfgWalk.walkGuard = true := Or.inr rfl
+-- `locked_never_painted_partial` is not vacuous: on the witness of the fixed finding the Show covers exactly cell (0,0)
+example : (((World.init 3 1).run cfgRepaired (lockedOps.take 4)).step cfgRepaired .show).t.covered =
+    (0, 0) :: ((World.init 3 1).run cfgRepaired (lockedOps.take 4)).t.covered := by decide +kernel
+example : (((World.init 3 1).run C01.cfgDemo (lockedOps.take 4)).step C01.cfgDemo .show).t.covered =
+    (1, 0) :: (0, 0) :: ((World.init 3 1).run C01.cfgDemo (lockedOps.take 4)).t.covered := by decide +kernel
 
 end Tcell.Props.C13
